@@ -289,8 +289,24 @@ def _same_items(va, a, b):
     return all(_same_terms(va, x, y) for x, y in zip(ta, tb))
 
 
+BUDGET_S = 4.0      # per function: beyond it the current form is simply "not proven equivalent"
+
+
 def equivalent(repo_cur, repo_ref, qual):
     """(True, note) when the current form of function `qual` is proven equivalent to its reference form, else (False, why)"""
+    import time
+    from . import lib
+    lib._DEADLINE[0] = time.time() + BUDGET_S
+    try:
+        ok, note = _equivalent(repo_cur, repo_ref, qual)
+        if ok and time.time() > lib._DEADLINE[0]:
+            return False, "time budget exhausted"
+        return ok, note
+    finally:
+        lib._DEADLINE[0] = None
+
+
+def _equivalent(repo_cur, repo_ref, qual):
     from .lib import FV
     fc, fr = repo_cur.funcs[qual], repo_ref.funcs[qual]
     if ast.dump(fc.node.args) != ast.dump(fr.node.args) or \
